@@ -259,6 +259,24 @@ pub struct Program {
 }
 
 impl Program {
+    /// `Default::default()` takes no argument, so the harness can tell *which* declaration a default-created value
+    /// belongs to only while at most one spawn through `Default` (spawn_default / DefaultSpawnable::spawn_owning) of
+    /// each harness actor type is outstanding - and a library is free to evaluate `Default::default()` later than the
+    /// spawn call (inside the actor's task).  Every program therefore keeps only its first default-spawn entry per type;
+    /// later ones use the corresponding entry that takes a ready-made value.
+    pub fn one_default_spawn_per_type(&mut self) {
+        let mut seen: Vec<u8> = vec![];
+        for a in self.actors.iter_mut() {
+            if matches!(a.entry, Entry::SpawnDefault | Entry::DefaultSpawnOwning) {
+                if seen.contains(&a.k) {
+                    a.entry = if a.entry == Entry::SpawnDefault { Entry::Spawn } else { Entry::SpawnOwning };
+                } else {
+                    seen.push(a.k);
+                }
+            }
+        }
+    }
+
     pub fn new() -> Program {
         Program { actors: vec![], clients: vec![], defaults: vec![], faults: vec![], cancel: None, topics: vec![] }
     }
